@@ -605,6 +605,8 @@ package workflow
 //@ func (*executor).processInput
 //@   requires e != nil && workflow != nil
 //@   ensures [input-scope-or-error] (result1 == nil) != (result == nil)
+//@   ensures [the-input-scope-is-the-described-input-with-its-own-references-applied] result1 == nil ==> called(Unserialize, 1) && callarg(Unserialize, 1, 1) == workflow.Input && \
+//@        any(result) == callres(Unserialize, 1, 0) && called(ApplySelf, 1) && callrecv(ApplySelf, 1) == any(result)
 //@ func (*executor).buildInternalDataModel
 //@   ensures result != nil
 // The namespace and compatibility passes only read the graph and the step tables (they write into
@@ -623,5 +625,10 @@ package workflow
 //@   ensures [workflow-or-error] (result1 == nil) != (result == nil)
 //@   ensures [a-prepared-workflow-satisfies-its-representation-invariant] result1 == nil ==> typeis(result, *executableWorkflow) && wfexec(result.(*executableWorkflow))
 //@   ensures [cycles-are-checked-last] result1 == nil ==> called(HasCycles, 1) && !callres(HasCycles, 1, 0)
+//@   ensures [the-input-scope-knows-the-objects-of-the-steps] result1 == nil ==> called(applyLifecycleNamespaces, 1) && callres(applyLifecycleNamespaces, 1, 0) == nil && \
+//@        callarg(applyLifecycleNamespaces, 1, 0) == callres(processSteps, 1, 2) && callarg(applyLifecycleNamespaces, 1, 1) == callres(processInput, 1, 0) && \
+//@        result.(*executableWorkflow).input == callres(processInput, 1, 0) && result.(*executableWorkflow).lifecycles == callres(processSteps, 1, 2) && \
+//@        result.(*executableWorkflow).runnableSteps == callres(processSteps, 1, 0) && result.(*executableWorkflow).stepRunData == callres(processSteps, 1, 3)
+//@   ensures [stage-inputs-were-checked-against-the-step-schemas] result1 == nil ==> called(classifyWorkflowStageInputs, 1) && callres(classifyWorkflowStageInputs, 1, 0) == nil
 //@   loop 1 invariant outputsSchema != nil && wfitems(dag) && stepsKnownIn(dag, stepLifecycles) && (forall k string :: indom(outputsSchema, k) ==> outputsSchema[k] != nil)
 //@   loop 1 invariant forall k string :: visited(k) ==> indom(outputsSchema, k) && indag(dag, outputnode(k))
